@@ -185,6 +185,11 @@ func HandleBulkBody(postBody []byte, ctx *fasthttp.RequestCtx, rid uint64, myid 
 				break
 			}
 
+			if !utils.IsSafePathComponent(indexName) {
+				success = false
+				log.Errorf("HandleBulkBody: invalid index name %q", indexName)
+				break
+			}
 			numBytes := len(line)
 			bytesReceived += numBytes
 			// update only if body is less than MAX_RECORD_SIZE
@@ -377,6 +382,9 @@ func ProcessIndexRequestPle(tsNow uint64, indexNameIn string, flush bool,
 		}
 	}
 
+	if !utils.IsSafePathComponent(indexNameIn) {
+		return utils.TeeErrorf("ProcessIndexRequestPle: invalid index name %q", indexNameIn)
+	}
 	indexNameConverted := AddAndGetRealIndexName(indexNameIn, localIndexMap, myid)
 	tsKey := config.GetTimeStampKey()
 
@@ -481,7 +489,7 @@ func deleteIndex(inIndexName string, myid int64, ctx *fasthttp.RequestCtx) ([]st
 	indicesNotFound := 0
 	for _, indexName := range convertedIndexNames {
 
-		indexPresent := vtable.IsVirtualTablePresent(&indexName, myid)
+		indexPresent := utils.IsSafePathComponent(indexName) && vtable.IsVirtualTablePresent(&indexName, myid)
 		if !indexPresent {
 			indicesNotFound++
 			continue
